@@ -282,7 +282,9 @@ class KMatrix(ModelItem):
         initial_concentration :
             The initial concentration.
         """
-        if np.sum(initial_concentration) != 1:
+        # the closed form solution assumes that only the first compartment is excited
+        initial_concentration = np.asarray(initial_concentration)
+        if initial_concentration[0] != 1 or np.any(initial_concentration[1:] != 0):
             return False
         matrix = self.reduced(compartments)
         return not any(
